@@ -9,6 +9,7 @@ import (
 
 	"hop.computer/hop/certs"
 	"hop.computer/hop/common"
+	"hop.computer/hop/pkg/verifhook"
 )
 
 // Handle implements net.Conn and MsgConn for connections accepted by a Server.
@@ -173,6 +174,7 @@ func (c *Handle) send(msgType MessageType, b []byte) error {
 	pkt, err := c.ss.sealPacketLocked(msgType, b, c.ss.writeKey)
 	remoteAddr := c.ss.remoteAddr
 	c.ss.m.Unlock()
+	verifhook.Yield("transport.Handle.send:sealed")
 	if err != nil {
 		go c.Close()
 		return err
@@ -192,6 +194,7 @@ func (c *Handle) send(msgType MessageType, b []byte) error {
 
 // Close closes the connection. Future operations on non-buffered data will return io.EOF.
 func (c *Handle) Close() error {
+	verifhook.Pause("transport.Handle.Close:enter")
 	c.ss.m.Lock()
 	defer c.ss.m.Unlock()
 	err := c.ss.closeLocked()
